@@ -53,7 +53,7 @@ pub fn terminal(carrier: Carrier, stage: Stage, variant: u8) -> Kind {
         Stage::Path => Kind::InvalidURIPath,
         Stage::Query => Kind::MalformedQueryString,
         Stage::Carrier => {
-            if variant == CARRIER_BOTH {
+            if variant >= CARRIER_BOTH {
                 Kind::SignatureDoesNotMatch
             } else {
                 Kind::MissingAuthenticationToken
